@@ -29,7 +29,9 @@ def sh(cmd, cwd=None, env=None, timeout=3000):
 
 def run_demo(src, binary):
     if os.path.exists(os.path.join(src, "demo.sh")):
-        return sh(["bash", os.path.join(src, "demo.sh"), binary], timeout=900)
+        first = open(os.path.join(src, "demo.sh"), errors="replace").readline()
+        interp = sys.executable if first.startswith("#!") and "python" in first else "bash"
+        return sh([interp, os.path.join(src, "demo.sh"), binary], timeout=900)
     if os.path.exists(os.path.join(src, "demo.py")):
         return sh([sys.executable, os.path.join(src, "demo.py"), binary], timeout=900)
     if os.path.exists(os.path.join(src, "run_demo_test.sh")):
